@@ -31,6 +31,40 @@ def pool_parts(ctx):
     return pool, run, run.nested
 
 
+def pool_names(run_f, cl):
+    """local names of Pool.run found by role"""
+    names = {}
+    te = cl['try_enqueue']
+    for st in walk_local(te.node):
+        if isinstance(st, ast.Assign) and isinstance(st.value, ast.Call) and isinstance(st.value.func, ast.Name) and st.value.func.id == 'next_inputs' \
+                and isinstance(st.targets[0], ast.Tuple) and len(st.targets[0].elts) == 3:
+            names['has_data'], names['from_retries'], names['inp'] = [e.id for e in st.targets[0].elts]
+    # verdict: `if not X: raise PoolError`
+    for st in walk_local(run_f.node):
+        if isinstance(st, ast.If) and any(isinstance(x, ast.Raise) and x.exc is not None and 'PoolError' in norm(x.exc) for x in st.body):
+            for t in ast.walk(st.test):
+                if isinstance(t, ast.UnaryOp) and isinstance(t.op, ast.Not) and isinstance(t.operand, ast.Name) and any(
+                        isinstance(a, ast.Assign) and is_name(a.targets[0], t.operand.id) and isinstance(a.value, ast.BoolOp) for a in walk_local(run_f.node)):
+                    names.setdefault('ok', t.operand.id)
+    # result list: the list handle_new_result appends the received result to (fallback: the name returned at the end)
+    hr = cl['handle_new_result']
+    for c in calls_in(hr.node):
+        if last_attr(c) == 'append' and isinstance(c.func.value, ast.Name) and c.args and is_name(c.args[0], hr.params[1] if len(hr.params) > 1 else ''):
+            names['ret'] = c.func.value.id
+    for st in ([] if 'ret' in names else run_f.node.body[::-1]):
+        rets = [x for x in ast.walk(st) if isinstance(x, ast.Return) and isinstance(x.value, ast.Name)]
+        if rets:
+            names['ret'] = rets[-1].value.id
+            break
+    # message unpack in the event loop
+    for st in walk_local(run_f.node):
+        if isinstance(st, ast.Assign) and isinstance(st.targets[0], ast.Tuple) and len(st.targets[0].elts) == 4 and isinstance(st.value, ast.Name) and all(isinstance(e, ast.Name) for e in st.targets[0].elts):
+            names['msg'] = st.value.id
+            names['flag'] = st.targets[0].elts[1].id
+            names['wid'] = st.targets[0].elts[3].id
+    return names
+
+
 def call_nodes(g, name, part='eval'):
     return [n for n in g.nodes if n.stmt is not None and n.part == part and any(
         (isinstance(c.func, ast.Name) and c.func.id == name) or last_attr(c) == name for c in calls_in(n.stmt if not isinstance(n.stmt, (ast.If, ast.While)) else n.stmt.test))]
@@ -55,13 +89,16 @@ def same_block_adjacent(func, a, b, user_names=('worker_callback', 'enqueue_fn')
 def run(ctx):
     pool, run_f, cl = pool_parts(ctx)
     te, hd, hu, he, hr = cl['try_enqueue'], cl['handle_death'], cl['handle_unused_data'], cl['handle_enqueue'], cl['handle_new_result']
+    N = pool_names(run_f, cl)
+    for k in ('has_data', 'inp', 'ok', 'ret', 'flag'):
+        ctx.require(k in N, f'Pool.run: the local playing the role `{k}` was not found')
 
     # ---------------------------------------------------------------- R1 input conservation in try_enqueue
     g = ctx.an.cfg(te, pool)
     enq = call_nodes(g, 'handle_enqueue', 'post')
     unused = call_nodes(g, 'handle_unused_data', 'post')
-    has_tests = [n for n in g.nodes if n.kind == 'test' and isinstance(n.stmt, ast.If) and norm(n.stmt.test) == 'has_data']
-    ctx.require(has_tests, 'try_enqueue: `if has_data` test not found')
+    has_tests = [n for n in g.nodes if n.kind == 'test' and isinstance(n.stmt, ast.If) and norm(n.stmt.test) == N['has_data']]
+    ctx.require(has_tests, 'try_enqueue: the test on the has-data flag was not found')
     starts = [e.dst for n in has_tests for e in n.succ if e.kind == 'true']
     sink = {n.id for n in enq + unused}
     # has_data is assigned once, before the loop: on these paths it stays true
@@ -197,13 +234,13 @@ def run(ctx):
     apps = []
     for f in [run_f] + list(cl.values()):
         for c in calls_in(f.node):
-            if last_attr(c) in ('append', 'extend', 'insert') and receiver(c) == 'ret':
+            if last_attr(c) in ('append', 'extend', 'insert') and receiver(c) == N['ret']:
                 apps.append((f, c))
     ok = len(apps) == 1 and apps[0][0] is hr and last_attr(apps[0][1]) == 'append' and is_name(apps[0][1].args[0], hr.params[1])
     ctx.check('R4', 'results are appended at exactly one site (handle_new_result, the received value)', ok, 'Pool.run', f'result-append-sites:{len(apps)}',
               f'{len(apps)} sites add to the result list (expected: one append of the received result in handle_new_result)', where=loc(run_f, run_f.node))
     # once per flag-true message: the call of handle_new_result sits on the flag-true side
-    flag_tests = [n for n in gr.nodes if n.kind == 'test' and isinstance(n.stmt, ast.If) and norm(n.stmt.test) in ('not flag', 'flag')]
+    flag_tests = [n for n in gr.nodes if n.kind == 'test' and isinstance(n.stmt, ast.If) and norm(n.stmt.test) in ('not ' + N['flag'], N['flag'])]
     ok = bool(flag_tests)
     if ok:
         neg = norm(flag_tests[0].stmt.test).startswith('not ')
@@ -214,7 +251,7 @@ def run(ctx):
               'an end-of-stream message can be appended as a result', where=loc(run_f, run_f.node))
 
     # ---------------------------------------------------------------- R5 verdict, loop condition, guard reset
-    oks = [st for st in walk_local(run_f.node) if isinstance(st, ast.Assign) and is_name(st.targets[0], 'ok')]
+    oks = [st for st in walk_local(run_f.node) if isinstance(st, ast.Assign) and is_name(st.targets[0], N['ok'])]
     conj = set()
     if oks and isinstance(oks[0].value, ast.BoolOp) and isinstance(oks[0].value.op, ast.And):
         conj = {norm(v) for v in oks[0].value.values}
